@@ -56,12 +56,13 @@ Fixpoint visible (knows : atom -> bool) (t : term) : list atom :=
   end.
 
 (* the same, but compressed data is not claimed to be readable: atoms certainly readable *)
-Fixpoint visible_sure (t : term) : list atom :=
+Fixpoint visible_sure (knows : atom -> bool) (t : term) : list atom :=
   match t with
   | TAtom a => [a]
-  | TTs _ | TRaw _ | TBad _ | THash _ | TTls _ | TCipher _ _ | TComp _ => []
+  | TTs _ | TRaw _ | TBad _ | THash _ | TTls _ | TComp _ => []
+  | TCipher k t' => if knows k then visible_sure knows t' else []
   | TMsg _ fs => (fix go (l : list term) : list atom :=
-                    match l with [] => [] | x :: r => visible_sure x ++ go r end) fs
+                    match l with [] => [] | x :: r => visible_sure knows x ++ go r end) fs
   end.
 
 Fixpoint has_bad (t : term) : bool :=
@@ -75,7 +76,7 @@ Fixpoint has_bad (t : term) : bool :=
 
 Definition nobody (_ : atom) : bool := false.
 Definition visible_all (knows : atom -> bool) (l : list term) : list atom := flat_map (visible knows) l.
-Definition visible_sure_all (l : list term) : list atom := flat_map visible_sure l.
+Definition visible_sure_all (knows : atom -> bool) (l : list term) : list atom := flat_map (visible_sure knows) l.
 
 (* ---------- today's facts ---------- *)
 Record tables := mk_tables {
@@ -85,7 +86,8 @@ Record tables := mk_tables {
   tb_calls : list call_key;
   tb_lits : list msg_lit;
   tb_writes : list clear_write;
-  tb_flows : list marshal_flow }.
+  tb_flows : list marshal_flow;
+  tb_crw : crw_shape }.
 
 Definition find_enc (T : tables) (file func : string) : option enc_site :=
   find (fun s => String.eqb (es_file s) file && String.eqb (es_func s) func) (tb_enc T).
@@ -101,15 +103,17 @@ Definition flows_of (T : tables) (cfg : string) : list (string * wexpr) :=
   map (fun f => (mf_field f, mf_expr f)) (filter (fun f => String.eqb (mf_cfg f) cfg) (tb_flows T)).
 
 (* ---------- configuration and history ---------- *)
-Inductive pkind := PkTcp | PkHttp | PkStcp.
+Inductive pkind := PkTcp | PkHttp | PkStcp | PkSudp.
+Inductive vkind := VkStcp | VkSudp.
 Record pcfg := mk_pcfg { p_id : Z; p_kind : pkind; p_enc : bool; p_comp : bool }.
-Record vcfg := mk_vcfg { v_id : Z; v_sk : Z; v_enc : bool; v_comp : bool }.
+Record vcfg := mk_vcfg { v_id : Z; v_kind : vkind; v_sk : Z; v_enc : bool; v_comp : bool }.
 
 Record wcfg := mk_wcfg {
   w_client : client_transport;   (* completed client transport config *)
   w_server_addr : string;
   w_force : bool;                (* completed server TLS.Force *)
   w_internal : bool;             (* session of the in-process ssh tunnel gateway (not on a network path) *)
+  w_token_empty : bool;          (* auth.token = "" (oidc method, or token method without a token): the token is public *)
   w_scope_hb : bool;             (* auth.additionalScopes contains HeartBeats *)
   w_scope_nwc : bool;            (* ... NewWorkConns *)
   w_pair_ok : bool;              (* oracle: the configured certificate files load *)
@@ -179,6 +183,11 @@ Definition conn_open (c : wcfg) : list term := open_items (plan_layers (plan c))
 
 Definition tr (c : wcfg) (t : term) : term := if conn_tls c then TTls t else t.
 
+(* what everybody knows: the token, when it is the empty string.  golib crypto derives the AES key
+   from the key bytes and a fixed salt, so a cipher keyed by the empty token can be opened by anyone *)
+Definition public (c : wcfg) (a : atom) : bool :=
+  match a with ATok => w_token_empty c | _ => false end.
+
 (* ---------- messages ---------- *)
 Definition field_term (ctx : skind -> atom) (meta : string -> option atom) (ts : Z) (f : string * wexpr) : term :=
   match snd f with
@@ -221,13 +230,18 @@ Definition nwc_msg (T : tables) (c : wcfg) (ts : Z) : term :=
      | Some fs => Some (fs ++ (if w_scope_nwc c then auth_fields T "SetNewWorkConn" else [])) | None => None end)
     ctx0 no_meta ts.
 
-(* client/visitor/stcp.go handleConn: &msg.NewVisitorConn{...} *)
+(* client/visitor/stcp.go handleConn resp. client/visitor/sudp.go getNewVisitorConn: &msg.NewVisitorConn{...} *)
 Definition nvc_msg (T : tables) (v : vcfg) (ts : Z) : term :=
-  msg_of "NewVisitorConn" (lit_fields T "client/visitor/stcp.go" "handleConn" "NewVisitorConn")
+  msg_of "NewVisitorConn"
+    (match v_kind v with
+     | VkStcp => lit_fields T "client/visitor/stcp.go" "handleConn" "NewVisitorConn"
+     | VkSudp => lit_fields T "client/visitor/sudp.go" "getNewVisitorConn" "NewVisitorConn"
+     end)
     (ctxp (v_sk v)) (fun f => if String.eqb f "ProxyName" then Some (AProxyName (v_sk v)) else None) ts.
 
 Definition cfg_struct (k : pkind) : string :=
-  match k with PkTcp => "TCPProxyConfig" | PkHttp => "HTTPProxyConfig" | PkStcp => "STCPProxyConfig" end.
+  match k with PkTcp => "TCPProxyConfig" | PkHttp => "HTTPProxyConfig" | PkStcp => "STCPProxyConfig"
+             | PkSudp => "SUDPProxyConfig" end.
 
 (* pkg/config/v1/proxy.go: <T>ProxyConfig.MarshalToMsg = ProxyBaseConfig.MarshalToMsg + own fields *)
 Definition newproxy_msg (T : tables) (p : pcfg) : term :=
@@ -257,7 +271,12 @@ Definition ctl_layer (T : tables) (file : string) (c : wcfg) (t : term) : term :
                 | _ => None end in
       match on, key_atom ctx0 (cs_key s) with
       | Some true, Some k =>
-          if String.eqb (cs_disp_then s) (cs_result s) then TCipher k t else t
+          if String.eqb (cs_disp_then s) (cs_result s)
+          then match tb_crw T with
+               | CrwAlways => TCipher k t       (* for every key value, the empty one included *)
+               | CrwUnknown w => TBad w
+               end
+          else t
       | Some false, Some _ =>
           if String.eqb (cs_disp_else s) (cs_result s) then TBad file else t
       | _, _ => TBad file
@@ -301,15 +320,22 @@ Definition payload_term (T : tables) (p : pcfg) (d : dir) (c : Z) : term :=
       | _ => enc_layer T "server/proxy/proxy.go" "handleUserTCPConnection" "" "" (ctxp (p_id p)) (p_enc p) (p_comp p) inner
       end
   | Down =>
-      enc_layer T "client/proxy/proxy.go" "HandleTCPWorkConnection" "client/proxy/proxy.go" "InWorkConn"
-                (ctxp (p_id p)) (p_enc p) (p_comp p) inner
+      match p_kind p with
+      | PkSudp => enc_layer T "client/proxy/sudp.go" "InWorkConn" "" "" (ctxp (p_id p)) (p_enc p) (p_comp p) inner
+      | _ => enc_layer T "client/proxy/proxy.go" "HandleTCPWorkConnection" "client/proxy/proxy.go" "InWorkConn"
+                       (ctxp (p_id p)) (p_enc p) (p_comp p) inner
+      end
   end.
 
 (* bytes of a visitor connection: client/visitor/stcp.go handleConn resp. server/visitor/visitor.go NewConn *)
 Definition vpayload_term (T : tables) (v : vcfg) (d : dir) (c : Z) : term :=
   let inner := comp_layer (v_comp v) (TAtom (APayload c)) in
   match d with
-  | Down => enc_layer T "client/visitor/stcp.go" "handleConn" "" "" (ctxp (v_sk v)) (v_enc v) (v_comp v) inner
+  | Down =>
+      match v_kind v with
+      | VkStcp => enc_layer T "client/visitor/stcp.go" "handleConn" "" "" (ctxp (v_sk v)) (v_enc v) (v_comp v) inner
+      | VkSudp => enc_layer T "client/visitor/sudp.go" "getNewVisitorConn" "" "" (ctxp (v_sk v)) (v_enc v) (v_comp v) inner
+      end
   | Up => enc_layer T "server/visitor/visitor.go" "NewConn" "" "" (ctxp (v_sk v)) (v_enc v) (v_comp v) inner
   end.
 
@@ -390,7 +416,8 @@ Definition ctl_ok (T : tables) : bool :=
   match find_ctl T "client/control.go", find_ctl T "server/control.go" with
   | Some a, Some b => ctl_site_ok a && ctl_site_ok b
   | _, _ => false
-  end && (length (tb_ctl T) =? 2)%nat.
+  end && (length (tb_ctl T) =? 2)%nat &&
+  match tb_crw T with CrwAlways => true | CrwUnknown _ => false end.
 
 (* the flows of MarshalToMsg may carry secrets (they ride under the control cipher) but nothing unknown *)
 Definition flows_ok (T : tables) : bool :=
@@ -439,7 +466,11 @@ Definition pairs_ok (T : tables) : bool :=
   same_key (site_key T "server/proxy/http.go" "GetRealConn" "" "")
            (site_key T "client/proxy/proxy.go" "HandleTCPWorkConnection" "client/proxy/proxy.go" "InWorkConn") KTok &&
   same_key (site_key T "server/visitor/visitor.go" "NewConn" "" "")
-           (site_key T "client/visitor/stcp.go" "handleConn" "" "") KSk.
+           (site_key T "client/visitor/stcp.go" "handleConn" "" "") KSk &&
+  same_key (site_key T "server/proxy/proxy.go" "handleUserTCPConnection" "" "")
+           (site_key T "client/proxy/sudp.go" "InWorkConn" "" "") KTok &&
+  same_key (site_key T "server/visitor/visitor.go" "NewConn" "" "")
+           (site_key T "client/visitor/sudp.go" "getNewVisitorConn" "" "") KSk.
 
 Definition enc_ok (T : tables) : bool :=
   forallb (enc_site_ok T) (tb_enc T) && pairs_ok T && (9 <=? Z.of_nat (length (tb_enc T))).
